@@ -11,7 +11,7 @@
 use std::{
     collections::{BTreeMap, BTreeSet, HashMap},
     net::SocketAddr,
-    sync::{Arc, Mutex},
+    sync::{Arc, Mutex, Weak},
 };
 
 use bytes::BytesMut;
@@ -132,7 +132,9 @@ impl SendFrame<NewConnectionIdFrame> for Issuer {
 }
 
 struct LConn {
-    queue: Arc<RcvdPacketQueue>,
+    queue: Option<Arc<RcvdPacketQueue>>, // the connection's own handle (released by `relq`)
+    wq: Weak<RcvdPacketQueue>,           // to look into the queue while anybody (e.g. the router table) keeps it alive
+
     local: Option<Arc<ArcLocalCids<Issuer>>>,
     odcid: Option<(String, QuicRouterEntry)>,
     log: Arc<Mutex<Log>>,
@@ -178,8 +180,10 @@ fn route(router: &Arc<QuicRouter>, conns: &[LConn], cid: ConnectionId) -> Result
     let mut got = vec![];
     for (k, c) in conns.iter().enumerate() {
         let mut n = 0;
-        while let Some(Some(_)) = c.queue.one_rtt().recv().now_or_never() {
-            n += 1;
+        if let Some(q) = c.wq.upgrade() {
+            while let Some(Some(_)) = q.one_rtt().recv().now_or_never() {
+                n += 1;
+            }
         }
         if n > 0 { got.push((k, n)); }
     }
@@ -211,9 +215,24 @@ fn one_case_l(rng: &mut Rng, sink: &mut Sink) {
     let mut retire_live = false;
     let mut retire_mid = false;
     let mut dropped_any = false;
+    // monitor bookkeeping for signposts registered through `QuicRouter::insert`: the LATEST registration owns the route
+    // until that connection's entry is dropped (an earlier connection's entry is then stale and routes nothing)
+    let mut reg_owner: HashMap<String, usize> = HashMap::new();
+    let mut xnames: Vec<String> = vec![];
+    let mut forced: std::collections::VecDeque<(u64, usize)> = Default::default();
+    let mut saw_stale_after_free = false;
     for step in 0..nops {
-        let c = if conns.is_empty() || step == 0 { 0 } else { rng.below(100) };
-        let k = if conns.is_empty() { 0 } else { rng.below(conns.len() as u64) as usize };
+        let mut c = if conns.is_empty() || step == 0 { 0 } else { rng.below(100) };
+        let mut k = if conns.is_empty() { 0 } else { rng.below(conns.len() as u64) as usize };
+        if let Some((fc, fk)) = forced.pop_front() { c = fc; k = fk; }
+        else if c >= 97 && !conns.is_empty() {
+            // tear one connection down: its LocalCids, its packet queue and its router entry go away in a random order
+            let mut parts = vec![80u64, 67, 85];
+            for i in (1..parts.len()).rev() { let j = rng.below(i as u64 + 1) as usize; parts.swap(i, j); }
+            for pc in parts { forced.push_back((pc, k)); }
+            sink.branch("teardown");
+            continue;
+        }
         if c < 10 && conns.len() < 4 {
             // ---- new connection, wired like builder.rs ----
             let server = rng.chance(1, 2);
@@ -224,15 +243,37 @@ fn one_case_l(rng: &mut Rng, sink: &mut Sink) {
             let scid = issuer.gen_unique_cid();
             let scid_name = names.lock().unwrap().by_cid[&scid].clone();
             let od = if server {
-                let (n, cid) = names.lock().unwrap().new_ext(rng);
+                // mostly a fresh client-chosen id; sometimes a signpost that was registered before (same original DCID
+                // seen twice): `QuicRouter::insert` takes the route over
+                let (n, cid) = if !xnames.is_empty() && rng.chance(2, 5) {
+                    let n = rng.pick(&xnames).clone();
+                    let cid = names.lock().unwrap().by_name[&n];
+                    sink.branch(if reg_owner.contains_key(&n) { "conn:takeover" } else { "conn:reuse-free-signpost" });
+                    (n, cid)
+                } else {
+                    let (n, cid) = names.lock().unwrap().new_ext(rng);
+                    xnames.push(n.clone());
+                    (n, cid)
+                };
                 let e = router.insert(Signpost::from(cid), queue.clone());
+                if let Some(prev) = reg_owner.get(&n).cloned() {
+                    // often the superseded connection is torn down next, its three parts in a random order
+                    if rng.chance(1, 2) {
+                        let mut parts = vec![80u64, 67, 85];
+                        for i in (1..parts.len()).rev() { let j = rng.below(i as u64 + 1) as usize; parts.swap(i, j); }
+                        for pc in parts { forced.push_back((pc, prev)); }
+                        sink.branch("teardown:superseded");
+                    }
+                }
+                reg_owner.insert(n.clone(), conns.len());
                 Some((n, e))
             } else { None };
             let op = format!("conn {}", od.as_ref().map(|x| x.0.clone()).unwrap_or("-".into()));
             let local = ArcLocalCids::new(scid, issuer);
             let (fs, _) = take_log(&log);
             let kk = conns.len();
-            let mut lc = LConn { queue, local: Some(Arc::new(local)), odcid: od, log, ids: BTreeMap::new(), retired: BTreeSet::new(), gone: false, limit: None, next_seq: 1, last_rpt: 0, poisoned: false };
+            let wq = Arc::downgrade(&queue);
+            let mut lc = LConn { queue: Some(queue), wq, local: Some(Arc::new(local)), odcid: od, log, ids: BTreeMap::new(), retired: BTreeSet::new(), gone: false, limit: None, next_seq: 1, last_rpt: 0, poisoned: false };
             lc.ids.insert(0, scid_name.clone());
             absorb_frames(&mut lc, kk, &fs, sink);
             conns.push(lc);
@@ -266,6 +307,13 @@ fn one_case_l(rng: &mut Rng, sink: &mut Sink) {
                     sink.line(&op, "PANIC");
                 }
             }
+        } else if (66..70).contains(&c) {
+            // the connection lets go of its `Arc<RcvdPacketQueue>`; the queue is freed once the registry (inside LocalCids)
+            // and every table entry pointing to it are gone too
+            let Some(q) = conns[k].queue.take() else { continue };
+            drop(q);
+            sink.branch(if conns[k].wq.upgrade().is_none() { "relq:freed" } else { "relq:still-referenced" });
+            sink.line(&format!("relq {}", k), "ok frames=- gone=-");
         } else if c < 70 {
             let Some(local) = conns[k].local.clone() else { continue };
             let live: Vec<u64> = conns[k].ids.keys().filter(|s| !conns[k].retired.contains(s)).cloned().collect();
@@ -337,9 +385,13 @@ fn one_case_l(rng: &mut Rng, sink: &mut Sink) {
                 Err(_) => { sink.monitor_fail("panic:local:drop", "drop panicked"); sink.line(&op, "PANIC"); }
             }
         } else if c < 87 {
-            let Some((_, e)) = conns[k].odcid.take() else { continue };
+            let Some((n, e)) = conns[k].odcid.take() else { continue };
+            let stale = reg_owner.get(&n) != Some(&k);
+            let freed = conns[k].wq.upgrade().is_none();
             drop(e);
-            sink.branch("dropodcid");
+            if !stale { reg_owner.remove(&n); }
+            if stale && freed { saw_stale_after_free = true; }
+            sink.branch(match (stale, freed) { (false, _) => "dropodcid", (true, false) => "dropodcid:stale", (true, true) => "dropodcid:stale-after-queue-freed" });
             sink.line(&format!("dropodcid {}", k), "ok frames=- gone=-");
         } else {
             // explicit lookup of some id (any name ever seen, or an unknown one)
@@ -368,8 +420,9 @@ fn one_case_l(rng: &mut Rng, sink: &mut Sink) {
                 if !cn.gone {
                     for (s, id) in &cn.ids { if !cn.retired.contains(s) { owner.insert(id, q); } }
                 }
-                if let Some((n, _)) = &cn.odcid { owner.insert(n, q); }
+                let _ = &cn.odcid;
             }
+            for (n, q) in &reg_owner { owner.insert(n, *q); }
             let mut all: Vec<&String> = g.by_name.keys().collect();
             all.sort();
             for n in all { expect.push((n.clone(), owner.get(n).cloned())); }
@@ -390,7 +443,7 @@ fn one_case_l(rng: &mut Rng, sink: &mut Sink) {
             }
         }
     }
-    if retire_live && retire_mid && dropped_any && conns.len() >= 2 { sink.nontrivial(); }
+    if (retire_live && retire_mid && dropped_any && conns.len() >= 2) || saw_stale_after_free { sink.nontrivial(); }
 }
 
 pub fn run_l(o: &Opts) {
@@ -401,7 +454,7 @@ pub fn run_l(o: &Opts) {
         sink.case(&format!("{}", i));
         one_case_l(&mut rng, &mut sink);
     }
-    sink.finish(&o.stats, "random histories of connection creation (client / server with original DCID), set_limit, RETIRE_CONNECTION_ID (live, retired, slid-out, unissued numbers), clear, drop, dropping the original-DCID entry and lookups, over up to 4 real ArcLocalCids on one real QuicRouter; non-trivial = at least 2 connections, a live id retired, a non-front id retired and a connection dropped; distinct by hash of the case transcript");
+    sink.finish(&o.stats, "random histories of connection creation (client / server with original DCID), set_limit, RETIRE_CONNECTION_ID (live, retired, slid-out, unissued numbers), clear, drop, dropping the original-DCID entry, re-registering an already registered original DCID from another connection (take-over, 2/5 of the server connections once one exists), releasing a connection's RcvdPacketQueue handle, tear-downs (LocalCids / queue / entry in a random order) and lookups, over up to 4 real ArcLocalCids on one real QuicRouter; non-trivial = (at least 2 connections, a live id retired, a non-front id retired and a connection dropped) or a superseded entry dropped after its queue was freed; distinct by hash of the case transcript");
 }
 
 
